@@ -569,7 +569,9 @@ func (r *rateLimiter) cleanupTimeoutClient() {
 			reason := fmt.Sprintf("instance %s last heartbeat since %v", instance, lastHeartbeat.Format(time.RFC3339Nano))
 			go func() {
 				for _, limitStore := range r.limitStoreMap {
-					conditions := limitStore.List(labels.Set{RateLimitConditionInstanceLabel: instance}.AsSelector())
+					// not AsSelector: for an instance name that is not a valid label
+					// value it returns a selector that matches every condition
+					conditions := limitStore.List(labels.SelectorFromValidatedSet(labels.Set{RateLimitConditionInstanceLabel: instance}))
 					for _, condition := range conditions {
 						r.deleteCondition(limitStore, condition, reason)
 					}
